@@ -203,4 +203,82 @@ theorem formatNPath_renderSeg (n : Text) :
   simp [formatNPath, haddr, Except.map]
 
 
+
+/-! ## frame form of fresh `set` / plain `rm` (target object referenced once) -/
+
+/-- A mutation of an object that occurs only at the target changes the target alone. -/
+theorem Doc.updSet_only_target (sid : Nat) (f : Node → Node) (d : Doc) (h : d.sidElsewhere sid = false) :
+    d.updSet sid f = { d with target := Node.updSet sid f d.target } := by
+  have := Doc.updSet_of_not_hasSet sid f _ h
+  simp only [Doc.updSet, Doc.mk.injEq, true_and] at this
+  obtain ⟨_, h1, h2, h3, h4, h5⟩ := this
+  simp only [Doc.updSet, h1, h2, h3, h4, h5]
+
+theorem set_fresh_frame (d : Doc) (p k : Text) (v : Node) (sid : Nat) (vs o : List Node) (m r : Bool)
+    (hnt : d.noTarget = none) (hsp : splitScopeNpath p = .ok none)
+    (hf : formatNPath currentAnchor p = .ok [k])
+    (ht : d.target = .set sid vs o m r)
+    (hr : findAttrpathRoot vs k = none) (hb : findBinding vs k = none)
+    (hone : d.sidElsewhere sid = false) :
+    setValue p (.one v) d =
+      (.ok (), { d with
+        target := .set sid (vs ++ [.bind d.next k false v [] []])
+          (if o.isEmpty then o else o ++ [.bind d.next k false v [] []]) m r
+        next := d.next + 1 }) := by
+  rw [Nima.set_fresh_plain d p k v sid hnt hsp hf (by rw [ht]; rfl) (by rw [ht]; exact hr)
+    (by rw [ht]; exact hb), Doc.updSet_only_target sid _ d hone, ht]
+  simp [Node.updSet, appendBothF]
+
+theorem rm_frame (d : Doc) (p k : Text) (bid : Nat) (nm : Text) (ne : Bool)
+    (val : Node) (bf af : Payload) (sid : Nat) (vs o : List Node) (m r : Bool)
+    (hnt : d.noTarget = none) (hsp : splitScopeNpath p = .ok none)
+    (hf : formatNPath currentAnchor p = .ok [k])
+    (ht : d.target = .set sid vs o m r)
+    (hr : findAttrpathRoot vs k = none)
+    (hb : findBinding vs k = some (.bind bid nm ne val bf af))
+    (hone : d.sidElsewhere sid = false) :
+    removeValue p d =
+      (.ok (), { d with
+        target := .set sid (vs.eraseP fun n => n.bindId? == some bid)
+          (if o.isEmpty then o else o.eraseP fun n => n.isBind && n.bindId? == some bid) m r }) := by
+  rw [Nima.rm_plain d p k bid nm ne val bf af sid hnt hsp hf (by rw [ht]; rfl) (by rw [ht]; exact hr)
+    (by rw [ht]; exact hb), Doc.updSet_only_target sid _ d hone, ht]
+  simp [Node.updSet, eraseBothF]
+
+theorem find?_eraseP_none {α} (p q : α → Bool) : ∀ (l : List α), l.find? p = none → (l.eraseP q).find? p = none := by
+  intro l h
+  rw [List.find?_eq_none] at h ⊢
+  intro x hx
+  exact h x (List.mem_of_mem_eraseP hx)
+
+/-- `rm k` then `set k val` with the removed value: the name is bound to the value again — as a NEW
+    binding at the end of the set, with empty trivia. -/
+theorem rm_set_rebinds (d : Doc) (p k : Text) (bid : Nat) (nm : Text) (ne : Bool)
+    (val : Node) (bf af : Payload) (sid : Nat) (vs o : List Node) (m r : Bool)
+    (hnt : d.noTarget = none) (hsp : splitScopeNpath p = .ok none)
+    (hf : formatNPath currentAnchor p = .ok [k])
+    (ht : d.target = .set sid vs o m r)
+    (hr : findAttrpathRoot vs k = none)
+    (hb : findBinding vs k = some (.bind bid nm ne val bf af))
+    (hone : d.sidElsewhere sid = false)
+    (huniq : findBinding (vs.eraseP fun n => n.bindId? == some bid) k = none) :
+    setValue p (.one val) (removeValue p d).2 =
+      (.ok (), { d with
+        target := .set sid ((vs.eraseP fun n => n.bindId? == some bid) ++ [.bind d.next k false val [] []])
+          (if (if o.isEmpty then o else o.eraseP fun n => n.isBind && n.bindId? == some bid).isEmpty
+           then (if o.isEmpty then o else o.eraseP fun n => n.isBind && n.bindId? == some bid)
+           else (if o.isEmpty then o else o.eraseP fun n => n.isBind && n.bindId? == some bid) ++
+             [.bind d.next k false val [] []]) m r
+        next := d.next + 1 }) := by
+  rw [rm_frame d p k bid nm ne val bf af sid vs o m r hnt hsp hf ht hr hb hone]
+  dsimp only
+  have key := set_fresh_frame
+    { d with target := (.set sid (vs.eraseP fun n => n.bindId? == some bid)
+        (if o.isEmpty then o else o.eraseP fun n => n.isBind && n.bindId? == some bid) m r) }
+    p k val sid _ _ m r hnt hsp hf rfl
+    (find?_eraseP_none _ _ vs hr) huniq (by simpa [Doc.sidElsewhere] using hone)
+  dsimp only at key
+  rw [key]
+
+
 end Nima
